@@ -106,6 +106,33 @@ func scenPendingNewLeader(dev int) *simScenario {
 	return sc
 }
 
+// a follower with a snapshot of its own and exactly one configuration entry above it, not committed, restarts; the
+// leader that sent the entry crashed before flushing it; n2 wins the next term without the entry and overwrites it:
+// n3 must fall back to the configuration of its snapshot, not to the entry that was just removed
+func scenSnapUncommittedConfig(dev int) *simScenario {
+	seed := memberSeed{"snap-uncommitted-config", 3, []uint64{1, 2, 3}, nil,
+		[]string{"T:1", "run", "update:1", "run", "update:1", "run", "snap:3", "run", "admin:1:demote:2",
+			`ev:{"k":"RS","n":0,"f":3}`, "deliver:3", "crash:3", "restart:3", "crash:1", "restart:1", "elect:2"}, nil}
+	sc := scenMember(seed, dev, 0, 0, false, nil, 0)
+	sc.Menu = simMenu{Drops: true}
+	sc.Crashes = 0
+	return sc
+}
+
+// a follower receives two configuration entries in one request while its commit index is below the first: n3 was cut
+// off while node 4 was added (committed with n2); the leader then appended {remove n4} and crashed before flushing it or
+// sending it to n2; n3 holds both entries, n2 wins the next term without the second one and overwrites it: n3 must
+// fall back to the first of the two (still in its log), not to the configuration it had before the request
+func scenTwoConfigsOneRequest(dev int) *simScenario {
+	seed := memberSeed{"two-configs-one-request", 4, []uint64{1, 2, 3}, nil,
+		[]string{"T:1", "run", "block:1:3", "admin:1:add:4", "run", "heal:1:3", "admin:1:remove:4",
+			`ev:{"k":"RS","n":0,"f":3}`, `ev:{"k":"RS","n":0,"f":3}`, "deliver:3", `ev:{"k":"RR","n":0,"f":3}`, `ev:{"k":"RS","n":0,"f":3}`, "deliver:3", "crash:1", "restart:1", "elect:2"}, nil}
+	sc := scenMember(seed, dev, 0, 0, false, nil, 0)
+	sc.Menu = simMenu{} // every interleaving of the internal events, no faults: with four nodes one dropped message already costs > 100 s
+	sc.Crashes = 0
+	return sc
+}
+
 // a node promoted and demoted again under the same leader has fallen behind when its promotion is requested once
 // more: whatever the leader remembers of the first promotion must not count
 func scenRepromote(dev int) *simScenario {
@@ -131,6 +158,8 @@ func init() {
 	simScenarios["member-pending-newleader"] = scenPendingNewLeader(1)
 	simScenarios["member-selfremove"] = scenSelfRemove(2, nil)
 	simScenarios["member-repromote"] = scenRepromote(1)
+	simScenarios["member-snap-uncommitted-config"] = scenSnapUncommittedConfig(1)
+	simScenarios["member-two-configs-one-request"] = scenTwoConfigsOneRequest(1)
 	for _, s := range memberSeeds {
 		simScenarios["member-"+s.name] = scenMember(s, 1, 1, 0, false, []string{"durable"}, 1)
 		simScenarios[fmt.Sprintf("member-%s-db", s.name)] = scenMember(s, 2, 2, 0, true, []string{"durable"}, 1)
@@ -143,7 +172,7 @@ func init() {
 	}
 	c08 := &simCheckSpec{Prop: "C08", Oracles: []string{"config", "leader", "commit"},
 		Scenarios: func(t string) []*simScenario {
-			return append([]*simScenario{scenPendingNewLeader(1)}, memberScenarios(t, nil, 0)...)
+			return append([]*simScenario{scenPendingNewLeader(1), scenSnapUncommittedConfig(1), scenTwoConfigsOneRequest(1)}, memberScenarios(t, nil, 0)...)
 		}, Budget: budget,
 		MustReach: []string{"configs"}}
 	vkChecks["C08"] = func(args []string) int { return runSimCheck(c08, args) }
